@@ -1,6 +1,7 @@
 """C04 - Angles, matrices and vectors obey the rotation algebra."""
 from __future__ import annotations
 
+import concurrent.futures as cf
 import json
 import time
 
@@ -36,18 +37,21 @@ def run(tier: str, seed: int) -> int:
     try:
         cov = {'states': 0, 'transitions': 0, 'models': {}}
         # 1. the design: exhaustive model checking on the exact domain
-        mcs = ['Rot_mc.cfg', 'Rot_deep.cfg'] + (['Rot_deep3.cfg'] if tier == 'thorough' else [])
-        for cfg in mcs:
-            r = run_tlc('Rot', cfg, timeout=1500)
-            core.require_mc(r, cfg)
-            if r.distinct < 1000:
-                raise core.MachineryError(f'{cfg}: suspiciously small state space ({r.distinct})')
-            cov['models'][cfg] = {'generated': r.generated, 'distinct': r.distinct, 'depth': r.depth}
-            cov['states'] += r.distinct
-            cov['transitions'] += r.generated
-        # 2. every expression of the bounded model, evaluated on the real objects
+        mcs = ['Rot_mc.cfg', 'Rot_deep.cfg', 'Rot_deep3.cfg'] if tier == 'thorough' else ['Rot_mc.cfg', 'Rot_deepq.cfg']
         ecfg = 'Rot_edges.cfg' if tier == 'thorough' else 'Rot_edges_q.cfg'
-        r = run_tlc('Rot', ecfg, workers=1, timeout=1500)
+        with cf.ThreadPoolExecutor(max_workers=4) as ex:
+            futs = {cfg: ex.submit(run_tlc, 'Rot', cfg, workers=6, timeout=1500) for cfg in mcs}
+            # 2. every expression of the bounded model (printed by TLC, one worker)
+            fute = ex.submit(run_tlc, 'Rot', ecfg, workers=1, timeout=1500)
+            for cfg in mcs:
+                r = futs[cfg].result()
+                core.require_mc(r, cfg)
+                if r.distinct < 1000:
+                    raise core.MachineryError(f'{cfg}: suspiciously small state space ({r.distinct})')
+                cov['models'][cfg] = {'generated': r.generated, 'distinct': r.distinct, 'depth': r.depth}
+                cov['states'] += r.distinct
+                cov['transitions'] += r.generated
+            r = fute.result()
         core.require_mc(r, ecfg)
         edges = [p for p in r.prints if isinstance(p, dict) and p.get('tag') == 'EDGE']
         if not edges:
@@ -61,7 +65,7 @@ def run(tier: str, seed: int) -> int:
             n_err += e['cur']['k'] == 'E'
             n_ang += bool(e['cur']['pt']['ok'])
             n_gimbal += bool(e['cur']['pt']['gimbal'])
-        if set(forms) != {'mm', 'imm', 'rmm'} or len(classes) != 7 or not (n_err and n_ang and n_gimbal):
+        if set(forms) != {'mm', 'imm', 'rmm'} or len(classes) != 8 or not (n_err and n_ang and n_gimbal):
             raise core.MachineryError(f'vacuous expression set: forms={forms} classes={classes} err={n_err} '
                                       f'angles={n_ang} gimbal={n_gimbal}')
         cov['expressions'] = len(edges)
